@@ -65,9 +65,21 @@ MANIFEST_ENTRY = {
         "driver (incl. its Float steps), mp4walk/segwalk, shims."),
     "technique": "Lean 4 proof (loop-as-walk over the global period sequence, least-index characterisation of get_segment_index) + model/implementation correspondence on the booted app",
 }
-PROP_FILES = ["DashLive/Props/C12.lean"]
-LEAN_TARGETS = ["DashLive.Props.C12"]
-GENERATORS = []
+PROP_FILES = ["DashLive/Props/C12.lean", "DashLive/Props/GenTiePeriods.lean"]
+LEAN_TARGETS = ["DashLive.Props.C12", "DashLive.Props.GenTiePeriods"]
+
+
+def _gen_translated():
+    """Gen/PeriodTimeline.lean (generate_period_timeline), Gen/Arith.lean (get_segment_index) and
+    Gen/Timeline.lean are translated from /repo's source text; Props/GenTiePeriods.lean proves the
+    translated generate_period_timeline equal to Periods.periodTimeline"""
+    import gen_arith
+    import gen_periodtimeline
+    gen_arith.main()
+    gen_periodtimeline.main()
+
+
+GENERATORS = [_gen_translated]
 TRUSTED = [
     "harness/c12_lib.py (definition generators, exact-rational oracle arithmetic), harness/segwalk.py + mp4walk.py "
     "(client-side MPD parsing, independent box walker), harness/mp4synth.py (synthetic streams), /verif/shims",
